@@ -341,6 +341,29 @@ def replay(n, bs, vp, with_cond, epochs):
         problems.append(f"rows {sorted(train_set & val_set)} used both for gradient steps and validation")
     if len(train_set) > n_train or len(val_set) > n_val or (bs == 1 and len(train_set | val_set) != n):
         problems.append(f"partition broken: {len(train_set)} training rows (n_train={n_train}), {len(val_set)} validation rows (n_val={n_val}), n={n}")
+    if not problems:
+        # the skipped remainder must be re-drawn every epoch: over 12 epochs (5 training rows, batch size 2: one row is dropped per epoch)
+        # every training row reaches a gradient step at least once unless the SAME rows are dropped each time (probability 2e-8 otherwise)
+        seen.clear()
+        keys_seen.clear()
+        x2 = jnp.arange(7, dtype=float)[:, None] * jnp.ones((1, 2))
+        c2 = jnp.arange(7, dtype=float)[:, None] if with_cond else None
+        try:
+            fit_to_data(jr.PRNGKey(3), jnp.array(0.0), x2, condition=c2, loss_fn=loss_fn, max_epochs=12, max_patience=10 ** 6, batch_size=2, val_prop=2 / 7,
+                        optimizer=optax.sgd(0.0), show_progress=False)
+            jax.effects_barrier()
+            per_epoch2 = 2 + 1
+            tr_rows = set()
+            va_rows = set()
+            for e in range(12):
+                chunk = seen[e * per_epoch2:(e + 1) * per_epoch2]
+                tr_rows |= {r for xr, _, _ in chunk[:2] for r in xr}
+                va_rows |= {r for xr, _, _ in chunk[2:] for r in xr}
+            if len(tr_rows) < 5:
+                problems.append(f"n=7, batch_size=2, val_prop=2/7, 12 epochs: only the training rows {sorted(tr_rows)} ever reach a gradient step - the skipped remainder is the "
+                                f"same row every epoch instead of the trailing row of each epoch's fresh shuffle")
+        except Exception as e:  # noqa
+            problems.append(f"real fit_to_data raised {type(e).__name__}: {e}")
     return bool(problems), "; ".join(problems) or "no discrepancy observed"
 
 
